@@ -2946,6 +2946,10 @@ class _Simu(_IObserver, _params.Updatable, ABC):
         # -------------------
         normals, nodes = mesh.Get_normals(nodes)
 
+        if nodes.size == 0:
+            # the nodes bound no boundary element: nothing is loaded
+            return np.array([], dtype=float), np.array([], dtype=int), nodes
+
         values = [val * magnitude for val in normals[:, :inDim].T]
 
         unknowns = self.Get_unknowns(problemType)[:inDim]
@@ -3017,6 +3021,10 @@ class _Simu(_IObserver, _params.Updatable, ABC):
         tic = Tic()
 
         self._Check_dofs(problemType, unknowns)
+
+        if np.size(nodes) == 0:
+            # the selection bounds no element of the loaded dimension: nothing is loaded
+            return
 
         new_Bc = BoundaryCondition(
             problemType, nodes, dofs, unknowns, dofsValues, f"Neumann {description}"
